@@ -488,9 +488,14 @@ def _strat_apply_unitary_from_unitary(
 
 
 def _strat_apply_unitary_from_decompose(val: Any, args: ApplyUnitaryArgs) -> np.ndarray | None:
+    from cirq.protocols.has_unitary_protocol import has_unitary
+
     operations, qubits, _ = _try_decompose_into_operations_and_qubits(val)
     if operations is None:
         return NotImplemented
+    if not all(has_unitary(op) for op in operations):
+        # Applying the unitary prefix of a non-unitary decomposition would mutate target_tensor.
+        return None
     all_qubits = frozenset([q for op in operations for q in op.qubits])
     ancilla = tuple(sorted(all_qubits.difference(qubits)))
     if not len(ancilla):
